@@ -99,3 +99,31 @@ Example ex_reorder_rejects : reorder_ok [s1; s2; s3] [s1; s3; s2] = false.
 Proof. vm_compute. reflexivity. Qed.
 Example ex_reorder_rejects_missing : reorder_ok [s1; s2; s3] [s1; s2] = false.
 Proof. vm_compute. reflexivity. Qed.
+
+(* histories on one form object over a cache seeded with the mass form:
+   add(u*v*dx); hash(); add(grad.grad); compile *)
+Definition e_mass := mul (mul (pd "u") (pd "v")) dxm.
+Definition e_stiff := mul (mul (fn "sqrt" geo0) (pd "v")) dxm.
+Definition empty2 := mk_form 2 2 0 false false [ubf; vbf] [geo_in] [geo_var] [].
+Definition hseed := [((add_expr empty2 e_mass, false), build (add_expr empty2 e_mass, false))].
+Definition hops := [OAdd 0 e_mass; OHash 0; OAdd 0 e_stiff; OCompile 0 false].
+
+Example ex_hist_hyps : wf_form ex_table empty2 = true /\ Forall (op_ok ex_table) hops.
+Proof. split; [vm_compute; reflexivity | repeat constructor]. Qed.
+
+(* with the guard on the memoised hash the second add() raises and the compile returns the class of
+   the content the object has (the mass form) ... *)
+Example ex_hist_guard_hash :
+  hrun GHash ex_table _ gen (preseed _ _ _ (keyof1 ex_table) hseed, [mk_obj empty2 None false]) hops
+  = [RAdded; RHashed (form_key ex_table (add_expr empty2 e_mass)); RRaised;
+     RClass true (gen false (strip_form ex_table (add_expr empty2 e_mass)))].
+Proof. vm_compute. reflexivity. Qed.
+
+(* ... with the guard on __is_finalized (seeded change C13-1) the add is accepted, the stale
+   hash is used as the cache key and the class of the OTHER form is returned: the property fails *)
+Example hist_guard_finalized_refuted :
+  ~ hrun_good GFinal ex_table _ gen (preseed _ _ _ (keyof1 ex_table) hseed, [mk_obj empty2 None false]) hops.
+Proof.
+  intros H. vm_compute in H. destruct H as [_ [_ [_ [[ob [E1 E2]] _]]]].
+  injection E1 as <-. discriminate E2.
+Qed.
